@@ -105,6 +105,9 @@ type Violation struct {
 	Idx    uint64 `json:"idx"`
 	Detail string `json:"detail"`
 	Count  uint64 `json:"count"`
+	// Prelude: the cases this process ran just before (oldest first). Monitors that keep results across cases
+	// (held results, echoes), and library state left behind by earlier calls, need them to reproduce the violation.
+	Prelude []CaseRef `json:"prelude,omitempty"`
 }
 
 // Result is what a worker process reports.
@@ -142,6 +145,24 @@ type Worker struct {
 	samples map[string]int
 	// State is free for the property (e.g. caches built in Setup).
 	State any
+	// recent: the last cases run in this process (stage name, idx), newest last
+	recent []CaseRef
+	// echoes registered by the previous case, re-evaluated after the current one
+	echoes []echo
+}
+
+// CaseRef names one case of a property.
+type CaseRef struct {
+	Stage string `json:"stage"`
+	Idx   uint64 `json:"idx"`
+}
+
+type echo struct {
+	name  string
+	stage string
+	idx   uint64
+	f     func() string
+	was   string
 }
 
 // Case is one execution of a stage at one index.
@@ -152,6 +173,8 @@ type Case struct {
 	R     *Rng
 	Tier  Tier
 	evals uint64
+
+	newEchoes []echo
 }
 
 // Evals adds n evaluations (library executions judged by an oracle) to the count.
@@ -163,6 +186,23 @@ func (c *Case) Cover(key string) { c.W.Res.Cover[key]++ }
 // Count adds to a named counter shown in the evidence.
 func (c *Case) Count(name string, n uint64) { c.W.Res.Counters[name] += n }
 
+// Echo registers a question whose answer must not depend on what the library is asked next: f is evaluated now
+// and again after the NEXT case of this worker has run; both answers must be equal. Typical f: call the library
+// again with this case's input (a stale cache, a memo keyed on part of the request or state left by an error path
+// changes the answer), or re-read a result this case still holds (memory handed out twice changes it).
+// f must be deterministic and must not use c. At most four echoes per case are kept.
+func (c *Case) Echo(name string, f func() string) {
+	if len(c.newEchoes) >= 4 {
+		return
+	}
+	var was string
+	if p, val, st := Try(func() { was = f() }); p {
+		c.Failf("echo-"+PanicSig(val, st)+"/"+name, "echo %s panicked at registration: %v\n%s", name, val, st)
+		return
+	}
+	c.newEchoes = append(c.newEchoes, echo{name: name, stage: c.Stage.Name, idx: c.Idx, f: f, was: was})
+}
+
 // Failf records a violation under signature sig.
 func (c *Case) Failf(sig string, format string, args ...any) {
 	v := c.W.Res.Violations[sig]
@@ -172,6 +212,7 @@ func (c *Case) Failf(sig string, format string, args ...any) {
 			d = d[:6000] + "…(truncated)"
 		}
 		v = &Violation{Sig: sig, Stage: c.Stage.Name, Idx: c.Idx, Detail: d}
+		v.Prelude = append([]CaseRef(nil), c.W.recent...)
 		c.W.Res.Violations[sig] = v
 		if c.W.Verbose {
 			fmt.Printf("violation sig=%s stage=%s idx=%d\n  %s\n", sig, c.Stage.Name, c.Idx, d)
@@ -191,6 +232,13 @@ func (c *Case) Sample(max int, v any) {
 	}
 	c.W.samples[c.Stage.Name]++
 	c.W.Res.Samples = append(c.W.Res.Samples, b)
+}
+
+func trunc(s string, n int) string {
+	if len(s) > n {
+		return s[:n] + "…"
+	}
+	return s
 }
 
 // Try runs f and reports a panic as an event instead of unwinding further.
@@ -265,6 +313,22 @@ func (w *Worker) runCase(st *Stage, idx uint64) {
 			}
 			c.Failf("pool-ownership/"+kind, "the pool-ownership monitor saw %d violation(s) during this case: %v", len(errs), errs)
 		}
+	}
+	// echoes of the previous case: the same questions, asked again now that another case has run in between
+	for _, e := range w.echoes {
+		var now string
+		if p, val, stk := Try(func() { now = e.f() }); p {
+			c.Failf("echo-"+PanicSig(val, stk)+"/"+e.name, "echo %s of %s[%d] panicked when asked again after %s[%d]: %v\n%s", e.name, e.stage, e.idx, st.Name, idx, val, stk)
+		} else if now != e.was {
+			c.Failf("answer-changed-after-later-calls/"+e.name, "%s of %s[%d] answered\n  %s\nwhen first asked and\n  %s\nafter %s[%d] had run in between", e.name, e.stage, e.idx, trunc(e.was, 1500), trunc(now, 1500), st.Name, idx)
+		}
+		c.evals++
+		w.Res.Counters["echoes_asked_again"]++
+	}
+	w.echoes = c.newEchoes
+	w.recent = append(w.recent, CaseRef{st.Name, idx})
+	if len(w.recent) > 3 {
+		w.recent = w.recent[len(w.recent)-3:]
 	}
 	if c.evals == 0 {
 		c.evals = 1
@@ -377,7 +441,7 @@ type WorkerOpts struct {
 }
 
 // ReplayCase re-executes one case in this process and reports whether the signature reproduces.
-func ReplayCase(prop string, tier Tier, seed uint64, stage string, idx uint64, sig string) int {
+func ReplayCase(prop string, tier Tier, seed uint64, stage string, idx uint64, sig string, prelude ...CaseRef) int {
 	p := Lookup(prop)
 	if p == nil || p.stage(stage) == nil {
 		fmt.Fprintln(os.Stderr, "unknown property/stage", prop, stage)
@@ -391,6 +455,15 @@ func ReplayCase(prop string, tier Tier, seed uint64, stage string, idx uint64, s
 	if !st.NoHandler {
 		w.Hooks = NewHooks()
 		InstallHooks(w.Hooks)
+	}
+	for _, pc := range prelude {
+		// the cases that ran before it in the same process: monitors keep results across cases
+		if ps := p.stage(pc.Stage); ps != nil && ps.NoHandler == st.NoHandler {
+			w.runCase(ps, pc.Idx)
+		}
+	}
+	if len(prelude) > 0 {
+		w.Res.Violations = map[string]*Violation{}
 	}
 	w.runCase(st, idx)
 	if w.Res.HarnessErr != "" {
